@@ -66,3 +66,5 @@ pub mod term;
 // chordal analysis / decomposition (C17, C18)
 #[cfg(feature = "sdp")]
 pub mod c1718;
+// QDLDL driver: iterative refinement trace, backend selection (C12)
+pub mod c12;
